@@ -22,6 +22,39 @@ def skeleton (it : Json) : Json :=
         ("attrs", Json.arr (((strs (lOf f "attrs")).filter (!isBuilderAttrS ·)).map Json.str).toArray)]).toArray),
     ("variants", Json.arr ((lOf it "variants").map fun v => Json.mkObj [("name", sOf v "name"), ("fields", fieldD v "fields" (Json.arr #[])), ("attrs", fieldD v "attrs" (Json.arr #[]))]).toArray)]
 
+
+/-- rename identifiers (maximal runs of letters, digits, `_`) of a text -/
+def renameIdents (m : List (String × String)) (s : String) : String :=
+  let isId (c : Char) : Bool := c.isAlphanum || c == '_'
+  let flush (cur : List Char) (out : List Char) : List Char :=
+    if cur.isEmpty then out else
+      let w := String.ofList cur.reverse
+      let w' := (m.lookup w).getD w
+      w'.toList.reverse ++ out
+  let (cur, out) := s.toList.foldl (fun (acc : List Char × List Char) c =>
+    if isId c then (c :: acc.1, acc.2) else ([], c :: flush acc.1 acc.2)) ([], [])
+  String.ofList (flush cur out).reverse
+
+/-- finding F18-2: a renaming of INLINE types (not component schemas) under which the two settings' type definitions
+are identical — `some pairs` when the structs only in the base and only in the variant can be matched one to one so -/
+def renamedInline (bSk vSk : List Json) : Option (List (String × String)) :=
+  let nameOf (j : Json) : String := sOf j "name"
+  let onlyB := bSk.filter fun b => !(vSk.any fun v => nameOf v == nameOf b && sOf v "kind" == sOf b "kind")
+  let onlyV := vSk.filter fun v => !(bSk.any fun b => nameOf v == nameOf b && sOf v "kind" == sOf b "kind")
+  if onlyB.isEmpty || onlyB.length != onlyV.length then none else
+  let bn := onlyB.map nameOf
+  let vn := onlyV.map nameOf
+  let blank (names : List String) (j : Json) : String := renameIdents (names.map fun n => (n, "§")) j.compress
+  -- pair each base-only type with the first unused variant-only type of the same shape (names blanked)
+  let pairs := onlyB.foldl (fun (acc : List (String × String)) b =>
+    match onlyV.find? (fun v => !(acc.any fun p => p.2 == nameOf v) && blank vn v == blank bn b) with
+    | some v => acc ++ [(nameOf b, nameOf v)]
+    | none => acc) []
+  if pairs.length != onlyB.length then none else
+  let renamedB := (bSk.map fun b => renameIdents pairs b.compress)
+  let vS := vSk.map (·.compress)
+  if renamedB.all (vS.contains ·) && vS.all (renamedB.contains ·) then some pairs else none
+
 def isTypeItem (it : Json) : Bool := ["struct", "enum", "type"].contains (sOf it "kind")
 
 def run : Handler := fun req => do
@@ -80,7 +113,14 @@ def run : Handler := fun req => do
   let headerOnly := !visBad.isEmpty && visBad.all (·.startsWith "HEADERCONST:")
   let judge :=
     if (fieldD var "parse_error" Json.null) != Json.null then verdict false [] "variant output does not parse"
-    else if !skDiff.isEmpty then verdict false [] s!"type definitions differ between the settings: {skDiff.take 4}"
+    else if !skDiff.isEmpty then
+      -- F18-2: with helper constructors the member structs of a union are converted EARLIER, and an inline array-item
+      -- type shared by several holders takes its name from whichever holder is converted first
+      let comps := strs (lOf inp "component_names")
+      let cls := match renamedInline bSk vSk with
+        | some pairs => if helpersDiffer && pairs.all (fun p => !comps.contains p.1 && !comps.contains p.2) then ["KnownHelperOrderRenamesInlineType"] else []
+        | none => []
+      verdict false cls s!"type definitions differ between the settings: {skDiff.take 4}"
     else if !constDiff.isEmpty then verdict false [] s!"constants change between the settings: {constDiff.take 3}"
     else if !added.isEmpty || !removed.isEmpty then verdict false [] s!"items added {added.take 3} / removed {removed.take 3} beyond the documented ones"
     else if !mBad.isEmpty then verdict false [] s!"inherent methods differ although helper/builder flags are equal: {mBad.take 4}"
@@ -89,6 +129,25 @@ def run : Handler := fun req => do
   let branch := s!"{sOf cfg "vis"}" ++ (if flag cfg "no_helpers" then "+nh" else "") ++ (if flag cfg "builders" then "+b" else "") ++ (if flag cfg "all_headers" then "+ah" else "") ++ "/" ++ sOf inp "mode"
   pure (Json.mkObj [("model", Json.null), ("match", true), ("judge", judge), ("branch", branch)])
 
-def ops : List (String × Handler) := [("flags.pair", run)]
+/-- `flags.cli` (real binary, tie E-cli): `generate types` and the `types.rs` of `generate client-mod` under ONE flag setting
+must be the same text once the crate-level `#![allow(..)]` lines of the single-file form are dropped; both runs succeed or
+both fail -/
+def cli : Handler := fun req => do
+  let inp ← field req "in"
+  let impl ← field req "impl"
+  let rcT := (fieldD impl "rc_types" (Json.num 0)).compress
+  let rcM := (fieldD impl "rc_mod" (Json.num 0)).compress
+  let strip (t : String) : List String := (t.splitOn "\n").filter fun l => !(l.startsWith "#![allow(") 
+  let a := strip (sOf impl "types")
+  let b := strip (sOf impl "mod_types")
+  let firstDiff := (a.zip b).find? fun p => p.1 != p.2
+  let judge :=
+    if rcT != rcM then verdict false [] s!"`generate types` exits {rcT}, `generate client-mod` exits {rcM} on the same document and flags"
+    else if rcT != "0" then verdict true [] "both runs fail (judged by C12)"
+    else if a == b then verdict true []
+    else verdict false [] s!"`types` and client-mod/types.rs differ under {(fieldD inp "flags" Json.null).compress}: {a.length} vs {b.length} lines; first difference {match firstDiff with | some p => (p.1.take 100).toString ++ " <> " ++ (p.2.take 100).toString | none => "(one is a prefix of the other)"}"
+  pure (Json.mkObj [("model", Json.null), ("match", true), ("judge", judge), ("branch", Json.str ((fieldD inp "flags" Json.null).compress ++ "/" ++ sOf inp "shape"))])
+
+def ops : List (String × Handler) := [("flags.pair", run), ("flags.cli", cli)]
 
 end Oas3.Driver.Flags
